@@ -65,6 +65,7 @@ type accessRec struct {
 	reads   vclock   // per-thread last read clock
 	rSites  []string // per-thread last read site
 	threads int      // bitmask of threads that touched it
+	racy    bool     // a race was reported on this location
 }
 
 type scheduler struct {
@@ -74,11 +75,12 @@ type scheduler struct {
 	abort       interface{}
 	acc         map[interface{}]*accessRec
 	timers      []*timerModel
+	atomics     map[*value]vclock
 }
 
 func (i *interpreter) resetSched() {
 	main := &thread{id: 0, wake: make(chan struct{}), vc: vclock{1}, name: "main"}
-	i.sched = &scheduler{threads: []*thread{main}, cur: main, acc: map[interface{}]*accessRec{}}
+	i.sched = &scheduler{threads: []*thread{main}, cur: main, acc: map[interface{}]*accessRec{}, atomics: map[*value]vclock{}}
 	i.vclock = int64(0)
 }
 
@@ -273,15 +275,10 @@ func (i *interpreter) block(fr *frame, cond func() bool, desc string) {
 			if i.advanceClock() {
 				continue
 			}
-			cur.waiting = nil
 			what := i.describeBlocked()
-			if cur.id == 0 {
-				panic(abortDeadlock{what})
-			}
-			if s.abort == nil {
-				s.abort = abortDeadlock{what}
-			}
-			panic(abortKilled{})
+			cur.waiting = nil
+			// in a non-main thread the goroutine's exit handler hands the abort to main
+			panic(abortDeadlock{what})
 		}
 		k := 0
 		if len(en) > 1 {
@@ -335,9 +332,10 @@ func (i *interpreter) sharedAccess(fr *frame, loc interface{}, write bool) {
 		s.acc[loc] = rec
 	}
 	bit := 1 << uint(cur.id)
-	if rec.threads&^bit != 0 && fr != nil {
-		// location known to be shared: allow a context switch before the access
-		i.schedPoint(fr, "shared")
+	if rec.racy && fr != nil {
+		// a race was already observed on this location on this path: interleave
+		// at its accesses too (race-free locations need no preemption: DRF-SC)
+		i.schedPoint(fr, "racy")
 	}
 	rec.threads |= bit
 	site := ""
@@ -351,6 +349,7 @@ func (i *interpreter) sharedAccess(fr *frame, loc interface{}, write bool) {
 		return 0
 	}
 	if rec.wThread >= 0 && rec.wThread != cur.id && rec.wClock > clk(rec.wThread) {
+		rec.racy = true
 		i.reportRace(loc, rec.wSite, site, true, write)
 	}
 	if write {
@@ -360,6 +359,7 @@ func (i *interpreter) sharedAccess(fr *frame, loc interface{}, write bool) {
 				if t < len(rec.rSites) {
 					rs = rec.rSites[t]
 				}
+				rec.racy = true
 				i.reportRace(loc, rs, site, false, true)
 			}
 		}
@@ -677,7 +677,9 @@ func (i *interpreter) fireTimers() {
 	for _, t := range s.timers {
 		if !t.fired && i.timeLE(t.when, i.vclock) {
 			t.fired = true
-			t.fire()
+			if t.fire != nil {
+				t.fire()
+			}
 		}
 	}
 }
